@@ -29,8 +29,9 @@ Section Step.
   Definition pre_src (s : state) (kb : job) (raw pre : list value) : Prop :=
     (pre_every_entry c = false /\ j_st kb = SWait raw pre) \/
     (j_parent kb = None /\ pre = keys_l c (root_order c) raw) \/
-    (exists p pb praw ppre e kids f,
-        j_parent kb = Some p /\ get s p = Some pb /\ j_st pb = SEval praw ppre e kids f /\
+    (exists q qb praw ppre e kids f,
+        (exists p, j_parent kb = Some p /\ q = if forks_per_parent c then p else 0) /\
+        get s q = Some qb /\ j_st qb = SEval praw ppre e kids f /\
         pre = snd (prep_l c f raw)).
 
   Inductive jstep (s s' : state) (k : nat) (kb : job) : status -> Prop :=
@@ -71,15 +72,17 @@ Section Step.
   Lemma preprocess_spec s jb raw s1 pre :
     preprocess c s jb raw = Some (s1, pre) ->
     (j_parent jb = None /\ s1 = s /\ pre = keys_l c (root_order c) raw) \/
-    (exists p pb praw ppre e kids f,
-        j_parent jb = Some p /\ get s p = Some pb /\ j_st pb = SEval praw ppre e kids f /\
-        s1 = set_st s p (SEval praw ppre e kids (fst (prep_l c f raw))) /\ pre = snd (prep_l c f raw)).
+    (exists q qb praw ppre e kids f,
+        (exists p, j_parent jb = Some p /\ q = if forks_per_parent c then p else 0) /\
+        get s q = Some qb /\ j_st qb = SEval praw ppre e kids f /\
+        s1 = set_st s q (SEval praw ppre e kids (fst (prep_l c f raw))) /\ pre = snd (prep_l c f raw)).
   Proof.
     unfold preprocess. destruct (j_parent jb) as [p|] eqn:P.
-    - destruct (nth_error s p) as [pb|] eqn:G; try discriminate.
+    - destruct (nth_error s (if forks_per_parent c then p else 0)) as [pb|] eqn:G; try discriminate.
       destruct (j_st pb) eqn:S; try discriminate.
       destruct (prep_l c f raw) as [f' pre'] eqn:PL. intro E. inversion E. subst.
-      right. exists p, pb, raw0, pre0, e, kids, f. rewrite PL. simpl. repeat split; auto.
+      right. exists (if forks_per_parent c then p else 0), pb, raw0, pre0, e, kids, f. rewrite PL. simpl.
+      repeat split; eauto.
     - intro E. inversion E. subst. left. auto.
   Qed.
 
